@@ -144,6 +144,17 @@ fn case_typed<S: Spec>(sub: &str, id: u64, r: &mut Report) {
             let mut src = SourceRng::new(data.clone());
             let g = S::R::from_rng(&mut src);
             let ok1 = nonzero::<S>(&g, "from_rng", desc.clone(), sub, id, r);
+            // a fallible source that delivers zero blocks and then starts failing:
+            // the result must be the error, or at any rate never a zero-state generator
+            {
+                let mut fs = SourceRng::new(vec![0u8; 8 * S::SEED_LEN]);
+                fs.fail_from = Some(1 + p.below(3) as usize);
+                let mut fsrc = FallibleSource(fs);
+                if let Ok(g3) = S::R::try_from_rng(&mut fsrc) {
+                    nonzero::<S>(&g3, "try_from_rng(zero blocks, then source failure)", desc.clone(), sub, id, r);
+                }
+                r.cov("zero_blocks_then_failure");
+            }
             let mut src2 = FallibleSource(SourceRng::new(data.clone()));
             match S::R::try_from_rng(&mut src2) {
                 Ok(g2) => {
@@ -211,6 +222,7 @@ pub fn run(ctx: &Ctx, only: Option<&Only>) -> Report {
         total.floor(&format!("leading_zero_blocks:{}", k), 10);
     }
     total.floor("all_zero_source", 10);
+    total.floor("zero_blocks_then_failure", 100);
     total.floor("leading_zero_blocks:many", 100);
     total.floor("preset_block_as_data", 100);
     total
